@@ -20,3 +20,4 @@ open Golem.Props.C17
 #print axioms from_id
 #print axioms monoid_empty
 #print axioms monoid_combine
+#print axioms builtin_ord_is_TransCmp
